@@ -63,7 +63,9 @@ type fnCtx struct {
 	recv   *types.Var
 	params map[*types.Var]int
 	consts map[*types.Var]bool // parameters with a known literal bool value
-	locals map[*types.Var]orig // origins of local variables (fixpoint)
+	locals map[*types.Var]orig // origins of local variables (fixpoint): everything reachable from the value
+	own    map[*types.Var]orig // ... and the memory the value itself refers to (its array, its pointee)
+	shallow bool               // origins() is asked for the latter
 	lits   map[*types.Var]*ast.FuncLit
 	// closure parameters: origins collected from the call sites of the closure variable
 	body ast.Node
@@ -257,6 +259,10 @@ func (c *fnCtx) origins(e ast.Expr) orig {
 				return o // a slice variable that is nil for the life of the program aliases no memory
 			}
 			o["global:"+v.Name()] = true
+		} else if c.shallow {
+			if lo, ok := c.own[v]; ok {
+				o.addAll(lo)
+			}
 		} else if lo, ok := c.locals[v]; ok {
 			o.addAll(lo)
 		}
@@ -289,6 +295,9 @@ func (c *fnCtx) origins(e ast.Expr) orig {
 		}
 	case *ast.CompositeLit:
 		o["fresh"] = true
+		if c.shallow {
+			break // the literal's own array or struct is new; what its elements refer to is not written through it
+		}
 		for _, el := range x.Elts {
 			if kv, ok := el.(*ast.KeyValueExpr); ok {
 				o.addAll(c.origins(kv.Value))
@@ -309,7 +318,26 @@ func (c *fnCtx) origins(e ast.Expr) orig {
 
 // origins of x as a base of a selector/index/deref: no pruning by x's own type
 // unless it is a pure value (then the selected part is a copy as well)
-func (c *fnCtx) originsNoPrune(e ast.Expr) orig { return c.origins(e) }
+func (c *fnCtx) originsNoPrune(e ast.Expr) orig { return c.deep(e) }
+
+// deep: everything reachable from the value of e
+func (c *fnCtx) deep(e ast.Expr) orig {
+	old := c.shallow
+	c.shallow = false
+	defer func() { c.shallow = old }()
+	return c.origins(e)
+}
+
+// memOf: the memory the value of e itself refers to - what `e[i] = v`, `*e = v`,
+// `append(e, ...)`, `copy(e, ...)` write.  For a composite literal, make or new that is
+// fresh memory whatever the elements point to; for a field or an element of something it
+// is whatever that something can reach.
+func (c *fnCtx) memOf(e ast.Expr) orig {
+	old := c.shallow
+	c.shallow = true
+	defer func() { c.shallow = old }()
+	return c.origins(e)
+}
 
 // locOrigins: whose memory is the location denoted by e (for &e, for a
 // pointer-receiver call on e, for an assignment to e)?  A local variable's own
@@ -339,7 +367,7 @@ func (c *fnCtx) locOrigins(e ast.Expr) orig {
 		}
 		if t := c.typeOf(x.X); t != nil {
 			if _, ok := t.Underlying().(*types.Pointer); ok {
-				return c.origins(x.X) // implicit dereference
+				return c.memOf(x.X) // implicit dereference
 			}
 		}
 		return c.locOrigins(x.X)
@@ -350,12 +378,12 @@ func (c *fnCtx) locOrigins(e ast.Expr) orig {
 				return c.locOrigins(x.X)
 			case *types.Pointer:
 				_ = u
-				return c.origins(x.X)
+				return c.memOf(x.X)
 			}
 		}
-		return c.origins(x.X) // slice or map element
+		return c.memOf(x.X) // slice or map element
 	case *ast.StarExpr:
-		return c.origins(x.X)
+		return c.memOf(x.X)
 	default:
 		o["unknown"] = true
 	}
@@ -503,6 +531,9 @@ func (c *fnCtx) callOrigins(call *ast.CallExpr) orig {
 		if len(call.Args) > 0 {
 			o.addAll(c.origins(call.Args[0]))
 			for _, a := range call.Args[1:] {
+				if c.shallow {
+					break // the elements are stored, not written through
+				}
 				if call.Ellipsis == token.NoPos {
 					o.addAll(c.origins(a))
 				} else if t := c.typeOf(a); t != nil {
@@ -542,7 +573,7 @@ func (c *fnCtx) callOrigins(call *ast.CallExpr) orig {
 		}
 	}
 	for _, a := range call.Args {
-		o.addAll(c.origins(a))
+		o.addAll(c.deep(a))
 	}
 	o["fresh"] = true
 	return o
@@ -615,7 +646,7 @@ func (a *effAnalysis) summary(fn *types.Func, consts map[int]bool) effSet {
 }
 
 func (a *effAnalysis) newCtx(fd *ast.FuncDecl, consts map[int]bool) *fnCtx {
-	c := &fnCtx{a: a, params: map[*types.Var]int{}, consts: map[*types.Var]bool{}, locals: map[*types.Var]orig{},
+	c := &fnCtx{a: a, params: map[*types.Var]int{}, consts: map[*types.Var]bool{}, locals: map[*types.Var]orig{}, own: map[*types.Var]orig{},
 		lits: map[*types.Var]*ast.FuncLit{}, eff: effSet{}, body: fd.Body, name: funcKey(fd)}
 	if fd.Recv != nil && len(fd.Recv.List) == 1 && len(fd.Recv.List[0].Names) == 1 {
 		if v, ok := a.info.Defs[fd.Recv.List[0].Names[0]].(*types.Var); ok {
@@ -656,6 +687,25 @@ func (c *fnCtx) constCond(e ast.Expr) (val, ok bool) {
 		if x.Op == token.NOT {
 			if b, ok := c.constCond(x.X); ok {
 				return !b, true
+			}
+		}
+	case *ast.BinaryExpr:
+		l, lok := c.constCond(x.X)
+		r, rok := c.constCond(x.Y)
+		switch x.Op {
+		case token.LAND:
+			if (lok && !l) || (rok && !r) {
+				return false, true
+			}
+			if lok && rok {
+				return true, true
+			}
+		case token.LOR:
+			if (lok && l) || (rok && r) {
+				return true, true
+			}
+			if lok && rok {
+				return false, true
 			}
 		}
 	}
@@ -736,7 +786,21 @@ func (c *fnCtx) run() {
 	}
 	for round := 0; round < 8; round++ {
 		changed := false
-		bind := func(id *ast.Ident, o orig) {
+		merge := func(m map[*types.Var]orig, v *types.Var, o orig) {
+			cur := m[v]
+			if cur == nil {
+				cur = orig{}
+				m[v] = cur
+			}
+			for k := range o {
+				if !cur[k] {
+					cur[k] = true
+					changed = true
+				}
+			}
+		}
+		// deepO: everything reachable from the value bound; ownO: the memory it refers to itself
+		bind := func(id *ast.Ident, deepO, ownO orig) {
 			v, ok := c.a.info.ObjectOf(id).(*types.Var)
 			if !ok || v == c.recv {
 				return
@@ -747,17 +811,8 @@ func (c *fnCtx) run() {
 			if v.Pkg() != nil && v.Parent() == v.Pkg().Scope() {
 				return
 			}
-			cur := c.locals[v]
-			if cur == nil {
-				cur = orig{}
-				c.locals[v] = cur
-			}
-			for k := range o {
-				if !cur[k] {
-					cur[k] = true
-					changed = true
-				}
-			}
+			merge(c.locals, v, deepO)
+			merge(c.own, v, ownO)
 		}
 		c.walk(c.body, func(n ast.Node) {
 			switch s := n.(type) {
@@ -765,15 +820,15 @@ func (c *fnCtx) run() {
 				if len(s.Lhs) == len(s.Rhs) {
 					for i, l := range s.Lhs {
 						if id, ok := l.(*ast.Ident); ok && id.Name != "_" {
-							bind(id, c.origins(s.Rhs[i]))
+							bind(id, c.deep(s.Rhs[i]), c.memOf(s.Rhs[i]))
 						}
 					}
 				} else if len(s.Rhs) == 1 {
-					o := c.origins(s.Rhs[0])
+					o := c.deep(s.Rhs[0])
 					for _, l := range s.Lhs {
 						if id, ok := l.(*ast.Ident); ok && id.Name != "_" {
 							if t := c.typeOf(id); t == nil || isRef(t) {
-								bind(id, o)
+								bind(id, o, o)
 							}
 						}
 					}
@@ -781,35 +836,26 @@ func (c *fnCtx) run() {
 			case *ast.ValueSpec:
 				for i, id := range s.Names {
 					if i < len(s.Values) {
-						bind(id, c.origins(s.Values[i]))
+						bind(id, c.deep(s.Values[i]), c.memOf(s.Values[i]))
 					}
 				}
 			case *ast.RangeStmt:
-				o := c.origins(s.X)
+				o := c.deep(s.X)
 				for _, e := range []ast.Expr{s.Key, s.Value} {
 					if id, ok := e.(*ast.Ident); ok && id.Name != "_" {
 						if t := c.typeOf(id); t == nil || isRef(t) {
-							bind(id, o)
+							bind(id, o, o)
 						}
 					}
 				}
 			case *ast.TypeSwitchStmt:
 				if as, ok := s.Assign.(*ast.AssignStmt); ok && len(as.Rhs) == 1 {
 					if ta, ok := as.Rhs[0].(*ast.TypeAssertExpr); ok {
-						o := c.origins(ta.X)
+						o, ow := c.deep(ta.X), c.memOf(ta.X)
 						for _, cl := range s.Body.List {
 							if obj, ok := c.a.info.Implicits[cl].(*types.Var); ok {
-								cur := c.locals[obj]
-								if cur == nil {
-									cur = orig{}
-									c.locals[obj] = cur
-								}
-								for k := range o {
-									if !cur[k] {
-										cur[k] = true
-										changed = true
-									}
-								}
+								merge(c.locals, obj, o)
+								merge(c.own, obj, ow)
 							}
 						}
 					}
@@ -823,7 +869,7 @@ func (c *fnCtx) run() {
 							for _, f := range lit.Type.Params.List {
 								for _, nm := range f.Names {
 									if k < len(s.Args) {
-										bind(nm, c.origins(s.Args[k]))
+										bind(nm, c.deep(s.Args[k]), c.memOf(s.Args[k]))
 									}
 									k++
 								}
@@ -843,7 +889,7 @@ func (c *fnCtx) run() {
 					for _, f := range s.Type.Params.List {
 						for _, nm := range f.Names {
 							if t := c.typeOf(nm); t == nil || isRef(t) {
-								bind(nm, orig{"unknown": true})
+								bind(nm, orig{"unknown": true}, orig{"unknown": true})
 							}
 						}
 					}
@@ -898,14 +944,14 @@ func (c *fnCtx) call(call *ast.CallExpr) {
 	}
 	switch c.builtinName(call) {
 	case "copy":
-		c.write(c.origins(call.Args[0]), "copy", call)
+		c.write(c.memOf(call.Args[0]), "copy", call)
 		return
 	case "delete", "clear":
-		c.write(c.origins(call.Args[0]), "delete/clear", call)
+		c.write(c.memOf(call.Args[0]), "delete/clear", call)
 		return
 	case "append":
 		// may write into spare capacity of the first argument's array
-		c.write(c.origins(call.Args[0]), "append", call)
+		c.write(c.memOf(call.Args[0]), "append", call)
 		return
 	case "close":
 		c.eff.add("other:close", c.where(call))
@@ -1041,8 +1087,28 @@ func (c *fnCtx) external(call *ast.CallExpr) {
 		}
 		return
 	}
-	c.eff.add("other:external call "+name, c.where(call))
+	c.eff.add("other:external call "+name+" ["+c.externalPkg(call)+"]", c.where(call))
 }
+
+// the package an external callee belongs to
+func (c *fnCtx) externalPkg(call *ast.CallExpr) string {
+	if fn := c.staticCallee(call); fn != nil && fn.Pkg() != nil {
+		return fn.Pkg().Path()
+	}
+	if sel, ok := call.Fun.(*ast.SelectorExpr); ok {
+		if s, ok := c.a.info.Selections[sel]; ok {
+			if fn, ok := s.Obj().(*types.Func); ok && fn.Pkg() != nil {
+				return fn.Pkg().Path()
+			}
+		}
+	}
+	return "?"
+}
+
+// packages whose functions keep or consult state that outlives a call
+var statefulPkgs = map[string]bool{"sync": true, "sync/atomic": true, "time": true, "math/rand": true, "math/rand/v2": true,
+	"crypto/rand": true, "os": true, "runtime": true, "unsafe": true, "context": true, "net": true, "syscall": true,
+	"runtime/debug": true, "log": true, "os/signal": true, "?": true}
 
 func (c *fnCtx) ifaceCall(call *ast.CallExpr, sel *ast.SelectorExpr, s *types.Selection) {
 	mname := sel.Sel.Name
@@ -1059,7 +1125,11 @@ func (c *fnCtx) ifaceCall(call *ast.CallExpr, sel *ast.SelectorExpr, s *types.Se
 			}
 			return
 		}
-		c.eff.add("other:external interface call "+key, c.where(call))
+		pk := "?"
+		if n.Obj().Pkg() != nil {
+			pk = n.Obj().Pkg().Path()
+		}
+		c.eff.add("other:external interface call "+key+" ["+pk+"]", c.where(call))
 		return
 	}
 	// in-package interface (named or anonymous): every method of that name in the package
@@ -1185,6 +1255,7 @@ func (a *effAnalysis) litSummary(li *litInfo, consts map[int]bool) effSet {
 	full := a.newCtx(li.owner, consts)
 	full.run()
 	c.locals = full.locals
+	c.own = full.own
 	c.lits = full.lits
 	c.body = li.lit.Body
 	c.walk(li.lit.Body, func(n ast.Node) { c.stmt(n) })
@@ -1287,6 +1358,14 @@ func genEffects(p *pkg, out string) {
 			if e == "other:call of an unknown function value" || e == "other:write through unknown alias" ||
 				strings.HasPrefix(e, "other:interface call without implementation") || strings.HasPrefix(e, "other:closure writes a parameter") {
 				continue
+			}
+			// a call into a library package that keeps no state between calls (bufio, io, bytes,
+			// strings, encoding/binary, sort, ...) is not state either; for the read-only API such
+			// a call stays an effect above, because it may write through its arguments
+			if strings.HasPrefix(e, "other:external") {
+				if i := strings.LastIndexByte(e, '['); i >= 0 && !statefulPkgs[strings.TrimSuffix(e[i+1:], "]")] {
+					continue
+				}
 			}
 			if strings.HasPrefix(e, "global:") || strings.HasPrefix(e, "other:") {
 				globals = append(globals, finding{k, e, s[e]})
